@@ -23,7 +23,7 @@ def unit(name):
 # recipes: C name -> where the function lives in the C++ AST
 #   sel: substring that must occur in the function's type (to pick an overload)
 # ---------------------------------------------------------------------------------------
-from recipes import RECIPES, JOBS  # noqa: E402
+from recipes import RECIPES, JOBS, FRAGMENTS  # noqa: E402
 
 
 def emit_function(cname, spec, af=False, extra_opts=None):
@@ -54,6 +54,109 @@ def emit_function(cname, spec, af=False, extra_opts=None):
         if em.fired.get(oid, 0) < mn:
             raise X.ExtractError('%s: override %s fired %d < %d times' % (cname, oid, em.fired.get(oid, 0), mn))
     return dict(text=txt, sig=sig, fired=em.fired, audit=em.lines, loops=em.loops, calls=em.calls)
+
+
+def _find_nodes(n, pred, out):
+    if isinstance(n, dict):
+        if 'kind' in n and pred(n):
+            out.append(n)
+        for c in n.get('inner', []):
+            _find_nodes(c, pred, out)
+    return out
+
+
+class FragmentEmitter(X.Emitter):
+    """Emits ONE expression of a function as a stand-alone C function.  Variables named in
+    `params` stay symbols; other locals with an initialiser are replaced by their (emitted)
+    initialiser; anything else becomes a free symbol vp_free_<n> (universally quantified)."""
+
+    def __init__(self, unit, fn_node, params):
+        X.Emitter.__init__(self, unit)
+        self.fn_node = fn_node
+        self.params = dict((n, t) for t, n in params)
+        self.free = []
+        self.local_decls = {}
+        for v in _find_nodes(fn_node, lambda n: n['kind'] == 'VarDecl', []):
+            self.local_decls[v['id']] = v
+        self.depth = 0
+
+    def o_DeclRefExpr(self, n):
+        rd = n.get('referencedDecl', {})
+        if rd.get('kind') in ('VarDecl', 'ParmVarDecl'):
+            nm = rd.get('name')
+            if nm in self.params:
+                return nm
+            v = self.local_decls.get(rd.get('id'))
+            ti = self.tm.info(X.qtype(n))
+            if v is not None and X.kids(v) and ti['kind'] == 'scalar' and self.depth < 8:
+                self.depth += 1
+                try:
+                    return '((%s)(%s))' % (ti['ctype'], self.emit(X.kids(v)[-1]))
+                finally:
+                    self.depth -= 1
+            return self.free_symbol(n, ti)
+        return X.Emitter.o_DeclRefExpr(self, n)
+
+    def free_symbol(self, n, ti=None):
+        ti = ti or self.tm.info(X.qtype(n))
+        if ti['kind'] != 'scalar':
+            raise X.ExtractError('fragment depends on a non-scalar value: ' + self.raw(n))
+        name = 'vp_free_%s_%d' % (self.cur_fn, len(self.free))
+        self.free.append((ti['ctype'], name, self.raw(n)))
+        return name
+
+    def o_CXXMemberCallExpr(self, n):
+        try:
+            ti = self.tm.info(X.qtype(n))
+        except X.ExtractError:
+            raise
+        me = X.kids(n)[0]
+        if ti['kind'] == 'scalar':
+            return self.free_symbol(n, ti)
+        return X.Emitter.o_CXXMemberCallExpr(self, n)
+
+    def o_CXXOperatorCallExpr(self, n):
+        ti = self.tm.info(X.qtype(n))
+        if ti['kind'] == 'scalar':
+            return self.free_symbol(n, ti)
+        return X.Emitter.o_CXXOperatorCallExpr(self, n)
+
+
+def emit_fragment(fname):
+    r = FRAGMENTS[fname]
+    u = unit(r['unit'])
+    fs = u.find_functions(r['fn'], r.get('cls'))
+    if not fs:
+        raise X.ExtractError('fragment %s: function %s not found' % (fname, r['fn']))
+    fn = fs[0]
+    if 'var' in r:
+        vs = [v for v in _find_nodes(fn, lambda n: n['kind'] == 'VarDecl' and n.get('name') == r['var'], [])]
+        if len(vs) != 1 or not X.kids(vs[0]):
+            raise X.ExtractError('fragment %s: expected exactly one initialised variable %s, found %d' % (fname, r['var'], len(vs)))
+        expr = X.kids(vs[0])[-1]
+        node = vs[0]
+    else:
+        mname, ordinal, argno = r['call']
+        cs = [c for c in _find_nodes(fn, lambda n: n['kind'] == 'CXXMemberCallExpr' and X.kids(n)[0].get('name') == mname, [])]
+        if len(cs) != r['count']:
+            raise X.ExtractError('fragment %s: expected %d calls of %s, found %d' % (fname, r['count'], mname, len(cs)))
+        expr = X.kids(cs[ordinal])[1 + argno]
+        node = cs[ordinal]
+    em = FragmentEmitter(u, fn, r['params'])
+    em.cur_fn = fname
+    body = em.emit(expr)
+    ps = list(r['params']) + [(t, nme) for (t, nme, _) in em.free]
+    txt = '%s %s(%s)\n{\n    return %s;\n}\n' % (r['ret'], fname, ', '.join('%s %s' % p for p in ps), body)
+    # native form: free symbols are globals that the replay harness sets by name
+    ntxt = ''.join('%s %s;\n' % (t, nme) for (t, nme, _) in em.free) + \
+        '%s %s(%s)\n{\n    return %s;\n}\n' % (r['ret'], fname, ', '.join('%s %s' % p for p in r['params']), body)
+    ntxt = X.postprocess(ntxt)
+    txt = X.postprocess(txt)
+    f, b, e = X.rng(node)
+    src = u.source(f)
+    audit = dict(cname=fname, file=f, begin_line=src[:b].count(b'\n') + 1, end_line=src[:e].count(b'\n') + 1,
+                 sha256=hashlib.sha256(src[b:e]).hexdigest(), fragment=True)
+    return dict(text=txt, native_text=ntxt, sig='', fired=em.fired, audit=[audit], loops=[], calls=em.calls, free=em.free)
 
 
 def load_specs(fnames):
